@@ -96,6 +96,9 @@ type vhC15Prog struct {
 	ctx      *vhC15Ctx
 	steps    *big.Int
 	moveOn   *big.Int // moved from the recipient to the third account (nil: not done)
+	takeFromSender *big.Int // moved from the sender to the third account by the program (nil: not done)
+	taken          *big.Int // what was actually taken
+	returnedOK     bool     // the program itself ended successfully
 	emit     bool
 	status   error
 	executed bool
@@ -110,6 +113,16 @@ func (p *vhC15Prog) ExecuteSync(cc contract.CallContext) (error, *codec.TypedObj
 	if err, _, _ := th.DoExecuteSync(cc); err != nil {
 		return err, nil, nil
 	}
+	if p.takeFromSender != nil {
+		// the called contract spends the caller's own funds (what staking does)
+		from := cc.GetAccountState(p.From.ID())
+		third := cc.GetAccountState(p.ctx.addrs[2].ID())
+		if from.GetBalance().Cmp(p.takeFromSender) >= 0 {
+			from.SetBalance(new(big.Int).Sub(from.GetBalance(), p.takeFromSender))
+			third.SetBalance(new(big.Int).Add(third.GetBalance(), p.takeFromSender))
+			p.taken = p.takeFromSender
+		}
+	}
 	if p.moveOn != nil {
 		to := cc.GetAccountState(p.To.ID())
 		third := cc.GetAccountState(p.ctx.addrs[2].ID())
@@ -122,6 +135,7 @@ func (p *vhC15Prog) ExecuteSync(cc contract.CallContext) (error, *codec.TypedObj
 		cc.OnEvent(p.To, [][]byte{[]byte("Done(int)"), {0x01}}, [][]byte{{0x02}})
 		cc.OnBTPMessage(7, []byte{0xb7})
 	}
+	p.returnedOK = p.status == nil
 	return p.status, nil, nil
 }
 
@@ -131,7 +145,9 @@ func vhC15NonNeg(name string) *big.Int {
 	return v
 }
 
-func vhC15Run(real bool) {
+func vhC15Run(real bool) { vhC15RunTo(real, false) }
+
+func vhC15RunTo(real, self bool) {
 	lg := log.New()
 	ctx := &vhC15Ctx{
 		stepPrice:   vhC15NonNeg("stepPrice"),
@@ -148,6 +164,9 @@ func vhC15Run(real bool) {
 	}
 	initial := ctx.GetSnapshot().(*vhC15Snap).bals
 	from, to := ctx.addrs[0], ctx.addrs[1]
+	if self {
+		to = from // a transfer to oneself
+	}
 	value := vhC15NonNeg("value")
 	stepLimit := vhC15NonNeg("stepLimit")
 	ch := contract.NewCommonHandler(from, to, value, false, lg)
@@ -159,6 +178,9 @@ func vhC15Run(real bool) {
 		prog = &vhC15Prog{CommonHandler: ch, ctx: ctx, steps: vhC15NonNeg("programSteps"), emit: sym.Bool("emits")}
 		if sym.Bool("moves_on") {
 			prog.moveOn = vhC15NonNeg("movedOn")
+		}
+		if sym.Bool("takes_from_sender") {
+			prog.takeFromSender = vhC15NonNeg("takenFromSender")
 		}
 		switch sym.Choose("outcome", 4) {
 		case 0:
@@ -190,7 +212,12 @@ func vhC15Run(real bool) {
 	charged := new(big.Int).Sub(initial[0], ctx.accts[0].bal)
 	want := new(big.Int).Set(fee)
 	if success {
-		want.Add(want, value)
+		if !self {
+			want.Add(want, value) // a transfer to oneself moves nothing
+		}
+		if prog != nil && prog.taken != nil {
+			want.Add(want, prog.taken) // what the called program spent on the sender's behalf
+		}
 	}
 	sym.Assert(charged.Cmp(want) == 0, "the sender is charged exactly the reported fee (steps used x step price) plus, on success, the value")
 	if ctx.rev&module.LegacyFeeCharge == 0 || stepUsed.Sign() != 0 {
@@ -206,7 +233,10 @@ func vhC15Run(real bool) {
 	sym.Assert(new(big.Int).Add(total1, fee).Cmp(total0) == 0, "the sum of all balances plus the fee charged is unchanged")
 	if success {
 		sym.Reach("success")
-		if real {
+		if real && self {
+			sym.Reach("self-transfer")
+			sym.Assert(ctx.accts[1].bal.Cmp(initial[1]) == 0 && ctx.accts[2].bal.Cmp(initial[2]) == 0, "a transfer to oneself touches no other account")
+		} else if real {
 			sym.Assert(new(big.Int).Sub(ctx.accts[1].bal, initial[1]).Cmp(value) == 0, "a successful plain transfer credits exactly the value to the recipient")
 			sym.Assert(ctx.accts[2].bal.Cmp(initial[2]) == 0, "a plain transfer touches no other account")
 		}
@@ -225,8 +255,12 @@ func vhC15Run(real bool) {
 	if prog != nil && prog.executed {
 		sym.Reach("failed-after-mutation") // the program ran (and possibly changed balances) before the failure
 	}
+	if prog != nil && prog.returnedOK {
+		sym.Reach("success-downgraded") // the program succeeded but the fee could not be paid afterwards
+	}
 }
 
+func VH_C15_self_transfer()  { vhC15RunTo(true, true) }
 func VH_C15_plain_transfer() { vhC15Run(true) }
 func VH_C15_program()        { vhC15Run(false) }
 func VH_C16_plain_transfer() { vhC15Run(true) }
